@@ -78,6 +78,7 @@ class RunCtx:
         self.nontrivial = False
         self.ntkey = None
         self.ntkeys = set()
+        self.extra = {}
         self.sample = None
         self.notes = []
         self._sub_n = 0
